@@ -1032,27 +1032,35 @@ def gen_deco(rnd):
     d = {}
     for k in keys:
         for n in names:
-            if rnd.random() < 0.4: d[k + ('@' + n if n else '')] = rnd.randrange(100)
+            if rnd.random() < 0.4: d[k + ('@' + n if n else '')] = rnd.randrange(100) if rnd.random() < 0.85 else rnd.choice([None, 0, 0.0, False, ''])       # (present, with a value that tests false / is None)
     return dict(mode='deco', params=d, name=rnd.choice(names), key=rnd.choice(keys), dflt=rnd.choice([None, None, 7]), seed=0, dyn='sto', procs=[])
 
 
 def run_deco(spec):
     p = Process(spec['name']) if spec['name'] else Process()
     k = spec['key'] if spec['dflt'] is None else (spec['key'], spec['dflt'])
+    MISSING = object()
     try:
-        out = str(p.getParameters(dict(spec['params']), [k])[0])
+        got = p.getParameters(dict(spec['params']), [k])[0]
     except KeyError:
-        out = "KeyError"
+        got = MISSING
+    out = "KeyError" if got is MISSING else str(got)
+    plain = all(isinstance(v, int) and not isinstance(v, bool) for v in spec['params'].values())
     inp = [f"DECO {spec['name'] or '-'} {spec['key']} {'-' if spec['dflt'] is None else spec['dflt']} " + ' '.join(f"{a}={b}" for a, b in spec['params'].items())]
-    # the rule itself, as the property states it
+    # the rule itself, as the property states it: own decorated name if present (whatever its value), else the shared name if present, else the
+    # declared default
     viol = []
     dk = spec['key'] + ('@' + spec['name'] if spec['name'] else '')
-    want = spec['params'].get(dk, spec['params'].get(spec['key'], spec['dflt']))
-    if out != (str(want) if want is not None else "KeyError"):
-        viol.append(('compose', f"getParameters({spec['params']}, {k}) for instance {spec['name']} gave {out}, the rule gives {want}"))
+    ps = spec['params']
+    want = ps[dk] if dk in ps else ps[spec['key']] if spec['key'] in ps else spec['dflt'] if spec['dflt'] is not None else MISSING
+    same = (got is MISSING and want is MISSING) or (got is not MISSING and want is not MISSING and type(got) == type(want) and got == want)
+    if not same:
+        viol.append(('compose', f"getParameters({ps}, {k}) for instance {spec['name']} gave {out}, the rule gives {'KeyError' if want is MISSING else repr(want)}"))
     rt = Process(spec['name']) if spec['name'] else Process()
     pp = rt.setParameters({}, {spec['key']: 5})
     if rt.getParameters(pp, [spec['key']]) != [5]: viol.append(('compose', "setParameters/getParameters do not round-trip"))
+    if not plain:          # values the model's protocol has no notation for: judged by the rule alone
+        return [], [], dict(events=1, oracle=viol, exc=None, handlers=[], tags=['deco'])
     return inp, [out], dict(events=1, oracle=viol, exc=None, handlers=[], tags=['deco'])
 
 
